@@ -12,7 +12,7 @@ EXPLANATION = (
     "and sends an Err into every drained sender, and crosses the close of the write side so later calls fail instead of "
     "blocking; (write-failure-returns) a call waits for a response only on the Ok edge of its own write, and every receive-"
     "side failure (timeout, closed channel) is mapped to Err; (notify-closed-on-loss) the WebSocket fail_all_pending always "
-    "empties the notify slot, which ends the subscriber's stream; (shutdown-wakes-reader) every TcpStream::shutdown in the blocking client (failed write, reader death, Drop) shuts both directions, which is what wakes the reader thread parked in read(); (loss-signal-ends-loop) in each response loop the edges on which the frame read reports an error, the stream ends, or (WebSocket) a frame is undecodable never lead back to another read - the only retry is io::ErrorKind::Interrupted on the blocking read - and decode_websocket_frame maps a peer Close frame to Err and skips nothing but Ping/Pong/raw frames; (pending-removed-on-abandon) in the blocking client every "
+    "empties the notify slot, which ends the subscriber's stream; (write-failure-must-poison, cancellable-write-section: shared with C05) a failed, timed-out or abandoned request write leaves the client poisoned, so a later call fails promptly instead of writing into a torn frame and waiting forever; (shutdown-wakes-reader) every TcpStream::shutdown in the blocking client (failed write, reader death, Drop) shuts both directions, which is what wakes the reader thread parked in read(); (loss-signal-ends-loop) in each response loop the edges on which the frame read reports an error, the stream ends, or (WebSocket) a frame is undecodable never lead back to another read - the only retry is io::ErrorKind::Interrupted on the blocking read - and decode_websocket_frame maps a peer Close frame to Err and skips nothing but Ping/Pong/raw frames; (pending-removed-on-abandon) in the blocking client every "
     "non-success arm of the wait and the write-failure path cross remove_pending(id); in the async and WebSocket clients "
     "the PendingRequestGuard is live (never moved or forgotten) across every later await and return, its Drop removes the "
     "key unless disarmed, and disarm happens only after a response was received. Late responses are discarded without "
@@ -283,6 +283,23 @@ def run(facts, R):
                     okw = wv is not None and bool(wv) == (not vrm)
                 R.check(okw, "pending-removed-on-abandon", w["body"].path, "flag flipped only by disarm()",
                         "`%s` is written outside disarm() or to the arming value" % flag, w["span"])
+
+    # ---------------- a torn or abandoned request write poisons the connection (shared with C05): otherwise the next call
+    # writes into the middle of the old frame, the server never answers it and it blocks forever
+    from analysis import report as _report
+    from rules import C05 as _c05
+    sub = _report.Report(R.prop, R.tier, R.config)
+    try:
+        _c05.run(facts, sub)
+    except Exception as e:     # C05's own anchors: reported by C05; here only its client-side verdicts are borrowed
+        sub.bad("anchor-resolution", "<crate>", "shared-C05-rules", "the shared write-poisoning rules could not run: %s" % e)
+    keep = ("write-failure-must-poison", "cancellable-write-section", "anchor-resolution")
+    for inst in sub.instances:
+        if inst["rule"] in keep and inst["verdict"] == "holds":
+            R.instances.append(inst)
+    for v in sub.violations:
+        if v["rule"] in keep:
+            R.bad(v["rule"], v["fn"], v["what"], v["msg"], v.get("site"), v.get("path"))
 
     # Drop for the blocking client's inner state fails its waiters (backs the upgrade-none exception)
     for path, mod in (("<client::ClientInner as std::ops::Drop>::drop", "client"),):
